@@ -91,6 +91,12 @@ func (d *DNSFilter) filterSetProperties(
 	newList FilterYAML,
 	isAllowlist bool,
 ) (shouldRestart bool, err error) {
+	// Wait for the refresh in progress, if any, to finish first.  It works on
+	// copies of the filters and writes their files, so it would replace the
+	// contents downloaded from the new URL with the ones from the old URL.
+	d.refreshLock.Lock()
+	defer d.refreshLock.Unlock()
+
 	d.conf.filtersMu.Lock()
 	defer d.conf.filtersMu.Unlock()
 
